@@ -10,11 +10,19 @@ package keeper
 // contract). Their callers below run them on a cache context whose write function is dropped.
 //@ func (Keeper).RouteExactAmountIn
 //@ modifies world
-//@ havoc-only
+//@ entry
+//@ forall p Int
+//@ decabstract
+//@ bound routes 2
+//@ ensures C02/total-shares-track-supply: shareGap(ctx, p) == old(shareGap(ctx, p))
 
 //@ func (Keeper).RouteExactAmountOut
 //@ modifies world
-//@ havoc-only
+//@ entry
+//@ forall p Int
+//@ decabstract
+//@ bound routes 2
+//@ ensures C02/total-shares-track-supply: shareGap(ctx, p) == old(shareGap(ctx, p))
 
 //@ func (Keeper).CalcSwapEstimationByDenom
 //@ modifies module:amm
@@ -86,6 +94,9 @@ package keeper
 //@ define shareGap(ctx, p) := ite(ammPoolHas(ctx, p), ammPoolRow(ctx, p).TotalShares.Amount, 0) - supply(ctx, types.GetPoolShareDenom(p))
 //@ define sharesOutsideCustody(ctx, p) := supply(ctx, types.GetPoolShareDenom(p)) - bal(ctx, modAddr("commitment"), types.GetPoolShareDenom(p))
 
+// The pool object a function works on is the stored pool as far as shares go.
+//@ define poolCurrent(ctx, pool) := ammPoolHas(ctx, pool.PoolId) && pool.TotalShares.Amount == ammPoolRow(ctx, pool.PoolId).TotalShares.Amount && poolWF(pool)
+
 // The pool handed in has already been bumped in memory by exactly the shares to mint.
 //@ func (Keeper).ApplyJoinPoolStateChange
 //@ forall p Int
@@ -141,13 +152,13 @@ package keeper
 // store: it must carry the stored share total.
 //@ func (Keeper).AddToPoolBalanceAndUpdateLiquidity
 //@ forall p Int
-//@ requires ammPoolHas(ctx, pool.PoolId) && pool.TotalShares.Amount == ammPoolRow(ctx, pool.PoolId).TotalShares.Amount && poolWF(pool)
+//@ requires poolCurrent(ctx, pool)
 //@ ensures C02/total-shares-move-by-the-stated-shares: err == nil ==> shareGap(ctx, p) == old(shareGap(ctx, p)) + ite(p == pool.PoolId, addShares, 0)
 //@ ensures C02/pool-object-still-current: err == nil ==> pool.TotalShares.Amount == ammPoolRow(ctx, pool.PoolId).TotalShares.Amount && ammPoolHas(ctx, pool.PoolId) && poolWF(pool)
 
 //@ func (Keeper).RemoveFromPoolBalanceAndUpdateLiquidity
 //@ forall p Int
-//@ requires ammPoolHas(ctx, pool.PoolId) && pool.TotalShares.Amount == ammPoolRow(ctx, pool.PoolId).TotalShares.Amount && poolWF(pool)
+//@ requires poolCurrent(ctx, pool)
 //@ ensures C02/total-shares-move-by-the-stated-shares: err == nil ==> shareGap(ctx, p) == old(shareGap(ctx, p)) - ite(p == pool.PoolId, removeShares, 0)
 //@ ensures C02/pool-object-still-current: err == nil ==> pool.TotalShares.Amount == ammPoolRow(ctx, pool.PoolId).TotalShares.Amount && ammPoolHas(ctx, pool.PoolId) && poolWF(pool)
 
@@ -185,11 +196,10 @@ package keeper
 //@ func (Keeper).UpdatePoolForSwap
 //@ forall p Int
 //@ decabstract
-//@ modifies bank, module:amm, module:accountedpool, module:masterchef, module:perpetual, module:tier, module:sdk-distribution
-//@ callers-assumed the routing functions (and the fee conversion) hand in the pool as they have just read it from the store
-//@ requires ammPoolHas(ctx, pool.PoolId) && pool.TotalShares.Amount == ammPoolRow(ctx, pool.PoolId).TotalShares.Amount && poolWF(pool)
-//@ ensures C02/total-shares-track-supply: err == nil ==> shareGap(ctx, p) == old(shareGap(ctx, p))
-//@ ensures C02/stored-share-total-unchanged: err == nil ==> ammPoolHas(ctx, pool.PoolId) && ammPoolRow(ctx, pool.PoolId).TotalShares.Amount == old(ammPoolRow(ctx, pool.PoolId).TotalShares.Amount)
+//@ modifies bank-balances, module:amm, module:accountedpool, module:masterchef, module:perpetual, module:tier, module:sdk-distribution
+//@ requires poolCurrent(ctx, pool)
+//@ ensures C02/total-shares-track-supply: shareGap(ctx, p) == old(shareGap(ctx, p))
+//@ ensures C02/stored-share-total-unchanged: ammPoolHas(ctx, pool.PoolId) && ammPoolRow(ctx, pool.PoolId).TotalShares.Amount == old(ammPoolRow(ctx, pool.PoolId).TotalShares.Amount)
 
 //@ func (Keeper).UpdatePoolParams
 //@ forall p Int
@@ -212,18 +222,18 @@ package keeper
 //@ func (Keeper).OnCollectFee
 //@ forall p Int
 //@ decabstract
-//@ modifies bank, module:amm, module:accountedpool, module:masterchef, module:perpetual, module:tier, module:sdk-distribution
-//@ requires ammPoolHas(ctx, pool.PoolId) && pool.TotalShares.Amount == ammPoolRow(ctx, pool.PoolId).TotalShares.Amount && poolWF(pool)
+//@ modifies bank-balances, module:amm, module:accountedpool, module:masterchef, module:perpetual, module:tier, module:sdk-distribution
+//@ requires poolCurrent(ctx, pool)
 //@ ensures C02/total-shares-track-supply: shareGap(ctx, p) == old(shareGap(ctx, p))
 //@ ensures C02/pool-object-still-current: pool.TotalShares.Amount == ammPoolRow(ctx, pool.PoolId).TotalShares.Amount && ammPoolHas(ctx, pool.PoolId)
 
 //@ func (Keeper).SwapFeesToRevenueToken
 //@ forall p Int
 //@ decabstract
-//@ modifies bank, module:amm, module:accountedpool, module:masterchef, module:perpetual, module:tier, module:sdk-distribution
-//@ ensures C02/stored-share-total-unchanged: err == nil ==> ammPoolHas(ctx, pool.PoolId) && ammPoolRow(ctx, pool.PoolId).TotalShares.Amount == old(ammPoolRow(ctx, pool.PoolId).TotalShares.Amount)
-//@ requires ammPoolHas(ctx, pool.PoolId) && pool.TotalShares.Amount == ammPoolRow(ctx, pool.PoolId).TotalShares.Amount && poolWF(pool)
-//@ ensures C02/total-shares-track-supply: err == nil ==> shareGap(ctx, p) == old(shareGap(ctx, p))
+//@ modifies bank-balances, module:amm, module:accountedpool, module:masterchef, module:perpetual, module:tier, module:sdk-distribution
+//@ ensures C02/stored-share-total-unchanged: ammPoolHas(ctx, pool.PoolId) && ammPoolRow(ctx, pool.PoolId).TotalShares.Amount == old(ammPoolRow(ctx, pool.PoolId).TotalShares.Amount)
+//@ requires poolCurrent(ctx, pool)
+//@ ensures C02/total-shares-track-supply: shareGap(ctx, p) == old(shareGap(ctx, p))
 
 //@ func (Keeper).GetExternalLiquidityRatio
 //@ modifies nothing
@@ -236,3 +246,46 @@ package keeper
 // Rewrites a pool row in the pre-v7 layout; used by the v7 store migration only.
 //@ func (Keeper).SetLegacyPool
 //@ migration-only
+
+// One hop of a swap: prices on the pool object, then settles through UpdatePoolForSwap. Shares and
+// supplies are never involved, whatever the outcome.
+//@ func (Keeper).InternalSwapExactAmountIn
+//@ forall p Int
+//@ decabstract
+//@ modifies bank-balances, module:amm, module:accountedpool, module:masterchef, module:perpetual, module:tier, module:sdk-distribution
+//@ requires poolCurrent(ctx, pool)
+//@ ensures C02/total-shares-track-supply: shareGap(ctx, p) == old(shareGap(ctx, p))
+
+//@ func (Keeper).InternalSwapExactAmountOut
+//@ forall p Int
+//@ decabstract
+//@ modifies bank-balances, module:amm, module:accountedpool, module:masterchef, module:perpetual, module:tier, module:sdk-distribution
+//@ requires poolCurrent(ctx, pool)
+//@ ensures C02/total-shares-track-supply: shareGap(ctx, p) == old(shareGap(ctx, p))
+
+// The pool with the highest TVL among the stored pools holding the denoms. Trusted: it is one of
+// the rows GetAllPool has just read.
+//@ func (Keeper).GetBestPoolWithDenoms
+//@ modifies nothing
+//@ trusted
+//@ ensures C02/returns-a-stored-pool: found ==> poolCurrent(ctx, pool)
+
+//@ func (Keeper).TrackSlippage
+//@ modifies table:amm:str/types.OraclePoolSlippageTrackKey
+//@ frame-only
+
+//@ func (Keeper).isElysRoutedMultihop
+//@ modifies nothing
+//@ frame-only
+
+//@ func (Keeper).getElysRoutedMultihopTotalSwapFee
+//@ modifies nothing
+//@ frame-only
+
+//@ func (Keeper).createMultihopExpectedSwapOuts
+//@ modifies table:amm~:types.KeyPrefix/types.PoolKey
+//@ frame-only
+
+//@ func (Keeper).createElysMultihopExpectedSwapOuts
+//@ modifies table:amm~:types.KeyPrefix/types.PoolKey
+//@ frame-only
